@@ -728,7 +728,9 @@ fn frontend_docs() -> Vec<(String, Vec<u8>)> {
         ("pi-doctype".into(), b"<?xml version=\"1.0\"?><!DOCTYPE svg><svg><rect wh=\"1\"/></svg>".to_vec()),
         ("null-byte".into(), b"<svg><rect wh=\"1\" a=\"\x00\"/></svg>".to_vec()),
     ];
-    for (f, n) in [("expr-parens", 20000u64), ("expr-unary-minus", 20000), ("nest-g", 5000), ("path-after-closepath", 64), ("expr-nested-calls", 5000), ("deep-unclosed", 50000), ("text-lines", 4096), ("var-chain-reverse", 2000), ("reuse-chain", 500), ("loop-nest", 40)] {
+    for (f, n) in [("expr-parens", 20000u64), ("expr-unary-minus", 20000), ("nest-g", 5000), ("path-after-closepath", 64), ("expr-nested-calls", 5000), ("deep-unclosed", 50000), ("text-lines", 4096), ("var-chain-reverse", 2000), ("reuse-chain", 500), ("loop-nest", 40),
+        // every nesting construct just beyond the default depth limit: the server answers from a 2 MiB thread stack
+        ("nest-a", 150), ("nest-defs", 150), ("nest-svg", 150), ("nest-text-tspan", 150), ("nest-symbol", 150), ("nest-loop", 150), ("nest-if", 150), ("nest-specs", 150), ("nest-g", 150), ("use-chain", 150), ("reuse-chain", 150), ("forward-ref-nested-groups", 90)] {
         if let Some((d, _)) = ladder_doc(f, n) {
             v.push((format!("ladder-{f}-{n}"), d.into_bytes()));
         }
